@@ -18,7 +18,7 @@ RES = ["thread", "async-thread", "main-thread"]
 # generator
 # ------------------------------------------------------------------------------------------------
 def gen_shape(rng, nmin=2, nmax=9, mix=None, pri="small", seq_rate=0.2, flags=True, reuse=True, mc_max=4,
-              kinds=True, max_deps=3, setup_rate=0.0, tag_rate=0.0, const_objects=0.06):
+              kinds=True, max_deps=3, setup_rate=0.0, tag_rate=0.0, const_objects=0.06, nest_rate=0.0):
     n = rng.randint(nmin, nmax)
     mix = mix or rng.choice(["thread", "async", "mixed", "mixed_main", "thread_main", "async_main"])
     fns = {}
@@ -111,6 +111,21 @@ def gen_shape(rng, nmin=2, nmax=9, mix=None, pri="small", seq_rate=0.2, flags=Tr
         "is_async": False,
         "mix": mix,
     }
+    from tawazi.config import cfg as _tcfg
+
+    # (with TAWAZI_IS_SEQUENTIAL=true the argument stubs tawazi creates for an inner DAG are sequential nodes themselves: the
+    # schedule clauses would need to know them - nested blocks are generated in the other worker processes only)
+    if n >= 3 and rng.random() < nest_rate and not _tcfg.TAWAZI_IS_SEQUENTIAL:
+        # a block of consecutive call sites is written as an inner DAG called by the describing function: same nodes, same
+        # dependencies, prefixed ids - every schedule / value / selection clause applies unchanged (C20: nesting == inlining)
+        a0 = rng.randrange(n)
+        b0 = min(n - 1, a0 + rng.randint(0, 2))
+        if S.nestable(spec, a0, b0):
+            spec["nest"] = {"name": "nin", "first": a0, "last": b0, "mc": rng.randint(1, 2)}
+            for fs in fns.values():
+                # (the argument stubs of the inner DAG have priority 0: with non-negative priorities a stub never ranks below the
+                # node it feeds, so the priority clauses need no special case)
+                fs["priority"] = abs(fs.get("priority", 0))
     return spec
 
 
@@ -604,7 +619,7 @@ def _check_c14(v, case, add, st):
             add("C14", "exception_does_not_name_failing_node", msg=msg[:300], node=nid)
         if nid in v.idx:
             # one call site per source line: site i is written on line i + 2 of "<name>"
-            loc = "<%s>:%d" % (v.spec["name"], v.idx[nid] + 2)
+            loc = "<%s>:%d" % (v.spec["name"], S.site_lines(v.spec)[v.idx[nid]])
             k = msg.find(loc)
             if k < 0 or msg[k + len(loc): k + len(loc) + 1].isdigit():
                 add("C14", "exception_does_not_name_call_location", msg=msg[:300], expected=loc)
